@@ -50,6 +50,7 @@ class ChunkGen:
         self.strs = [self.rand_str() for _ in range(4)]
         self.nfun = 0
         self.closed = []
+        self.ro = set()
 
     def h(self, k):
         self.hist[k] = self.hist.get(k, 0) + 1
@@ -284,12 +285,13 @@ class ChunkGen:
                 self.emit_line(ind, "end")
                 self.h("st:tbc")
             elif k == 18 and self.closed:
-                self.emit_line(ind, "emit(pcall(%s, %s))" % (r.choice(self.closed), ", ".join(self.expr(sc) for _ in range(r.below(3)))))
+                self.emit_line(ind, "emit(pcall(%s))" % ", ".join([r.choice(self.closed)] + [self.expr(sc) for _ in range(r.below(3))]))
                 self.h("st:call-global-function")
             elif k == 19:
                 v = self.fresh("v")
                 self.emit_line(ind, "local %s <const> = %s" % (v, self.const()))
                 sc.append(v)
+                self.ro.add(v)
                 self.h("st:const-local")
             elif k == 20 and depth < 3:
                 c = self.fresh("c")
@@ -300,8 +302,9 @@ class ChunkGen:
                 self.emit_line(ind, "until %s > %d" % (c, r.below(4)))
                 self.h("st:repeat")
             else:
-                if sc:
-                    self.emit_line(ind, "%s = %s" % (r.choice(sc), self.expr(sc)))
+                rw = [x for x in sc if x not in self.ro]
+                if rw:
+                    self.emit_line(ind, "%s = %s" % (r.choice(rw), self.expr(sc)))
                     self.h("st:assign")
         return sc
 
@@ -653,7 +656,7 @@ def parse_chunk_line(line):
 def lua_result_key(line):
     """outcome of a lua-engine line without the id and without the context usage"""
     f = line.split(" ")
-    return " ".join(x for x in f[1:] if not x.startswith("X:"))
+    return " ".join(x for x in f[1:] if not x.startswith("X:") and not x.startswith("A:"))
 
 
 def mutations(rng, d, offs, nrand):
@@ -695,20 +698,23 @@ LOAD_MSG = {"eof": b"EOF", "ueof": b"unexpected EOF", "type": b"Invalid value ty
 
 
 def predict_load(data, model_line):
-    """what load(data, name, "b") must emit, from the model's verdict on UnmarshalConst"""
+    """what load(data, name, "b") must emit, from the model's verdict (load_binary) on the same bytes"""
     fn = "s" + b"function".hex() + ",n"
     if data[:3] != bytes([6, 0, 4]):
         return "s" + b"nil".hex() + ",s" + b"attempt to load a text chunk".hex()
     f = model_line.split(" ")
-    if f[1] == "val":
-        if f[2].startswith("C,"):
-            return fn
-        return "s" + b"nil".hex() + ",s" + b"Expected function to load".hex()
-    if f[1] == "nil":
+    if f[1] == "fun":
+        return fn
+    if f[1] == "notfun":
         return "s" + b"nil".hex() + ",s" + b"Expected function to load".hex()
     if f[1] == "err":
         return "s" + b"nil".hex() + ",s" + LOAD_MSG[f[2]].hex()
     return None
+
+
+def run_oracle(oracle, lines):
+    """the extracted model recurses as deep as its lists are long: lift the stack limit"""
+    return vlib.run_lines("sh", ["-c", 'ulimit -s unlimited 2>/dev/null || ulimit -s 1000000; exec "$0"', oracle], lines, timeout=3000)
 
 
 def run(tier, seed):
@@ -742,6 +748,7 @@ def run(tier, seed):
         chunks.append(g.chunk())
     lines = ["c%d chunk %s" % (i, src.encode().hex()) for i, src in enumerate(chunks)]
     rc, impl, e1 = vlib.run_lines(gvh, ["marshal"], lines, timeout=3000)
+    ck.log("stage A: Go side done")
     if rc != 0 or len(impl) != len(lines):
         ck.violation("gvh-marshal crashed or produced %d/%d lines" % (len(impl), len(lines)),
                      {"kind": "crash", "stderr": e1[-2000:], "chunk": chunks[min(len(impl), len(chunks) - 1)]})
@@ -767,17 +774,20 @@ def run(tier, seed):
         ck.count("chunk:ok")
         good_chunks.append(i)
         unit, parts = pc
+        olines.append("U%d unit %s" % (i, unit))
         for j, p in enumerate(parts):
             cid = "%d.%d" % (i, j)
             closures.append((i, j, unit, p))
-            olines.append("u%s dumpu %s %s" % (cid, hz(p["idx"]), unit))
+            olines.append("u%s dumpu %s" % (cid, hz(p["idx"])))
             olines.append("t%s dumpt %s" % (cid, p["tree"]))
             olines.append("m%s unm %x 0 %s" % (cid, LIM, p["d1"]))
-    rc2, model, e2 = vlib.run_lines(oracle, [], olines, timeout=3000)
-    if rc2 != 0 or len(model) != len(olines):
+    rc2, model, e2 = run_oracle(oracle, olines)
+    ck.log("stage A: model side done (%d lines, %d MB)" % (len(olines), sum(len(x) for x in olines) >> 20))
+    if rc2 != 0 or len(model) != len(olines) + 0:
         ck.violation("oracle crashed (%d/%d lines)" % (len(model), len(olines)), {"kind": "oracle-crash", "stderr": e2[-2000:]}, no_input=True)
     unit_cache = {}
     dumps = []
+    model = [l for l in model if not (l.startswith("U") and l.endswith(" ok"))]
     for n, (i, j, unit, p) in enumerate(closures):
         if 3 * n + 2 >= len(model):
             break
@@ -915,14 +925,44 @@ def run(tier, seed):
         bud = 0 if n % 2 == 0 else rng.choice(budgets + [len(m), max(0, len(m) - 3), len(m) + 1])
         ulines.append("x%d unm %x %s" % (n, bud, hx(m)))
         mlines.append("x%d unm %x %x %s" % (n, LIM, bud, hx(m)))
-        src = 'local f, e = load(%s, "m", "b"); emit(type(f), e)' % lua_str(m)
+        src = 'local f, e = load(%s, "m", "b"); emit(type(f), e)' % lua_str(m) if bud == 0 else "emit('skipped')"
         llines.append("l%d %s" % (n, src.encode().hex()))
     t0 = time.time()
-    rcm, mout, em = vlib.run_lines(oracle, [], mlines, timeout=3000)
+    rcm, mout, em = run_oracle(oracle, mlines)
+    _, lmod, _ = run_oracle(oracle, ["y%d load %x 0 %s" % (n, LIM, hx(m)) for n, (kind, m) in enumerate(muts)])
+    if len(lmod) != len(muts):
+        ck.violation("oracle crashed on malformed streams (load)", {"kind": "oracle-crash"}, no_input=True)
+        lmod += ["y fuel"] * (len(muts) - len(lmod))
+    if rcm != 0 or len(mout) != len(mlines):
+        ck.violation("oracle crashed on malformed streams (%d/%d lines)" % (len(mout), len(mlines)), {"kind": "oracle-crash", "stderr": em[-2000:]}, no_input=True)
+    # Streams on which the model predicts a fatal allocation cost a process each (and, in the gray zone,
+    # gigabytes of real memory): all of them are the recorded finding, so only a sample is executed.
+    keep, nfatal, ngray = [], 0, 0
+    for n in range(min(len(muts), len(mout))):
+        f = mout[n].split(" ")
+        if f[1] == "fatal":
+            req = int(f[2], 16)
+            if req > SURE_FATAL:
+                nfatal += 1
+                if nfatal > (4 if quick else 60):
+                    ck.count("malformed:predicted-fatal-not-executed")
+                    continue
+            else:
+                ngray += 1
+                if quick or req > (1 << 27) or ngray > 40:
+                    ck.count("malformed:gray-zone-not-executed")
+                    continue
+        keep.append(n)
+    muts = [muts[n] for n in keep]
+    mout = [mout[n] for n in keep]
+    lmod = [lmod[n] for n in keep]
+    ulines = [ulines[n] for n in keep]
+    llines = [llines[n] for n in keep]
     uout = vlib.run_lines_resilient(gvh, ["marshal"], ulines, per_case_timeout=60)
     lout = vlib.run_lines_resilient(gvh, ["lua"], llines, per_case_timeout=60)
     ck.log("stage C: %d malformed streams, %.1fs" % (len(muts), time.time() - t0))
     known_make = ck.known_match(lambda k: k.get("id") == "C13-unmarshal-make-before-budget")
+    known_upv = ck.known_match(lambda k: k.get("id") == "C13-load-negative-upvalue-count")
     mal_fail = 0
     for n, (kind, m) in enumerate(muts):
         if n >= len(mout) or n >= len(uout) or n >= len(lout):
@@ -937,6 +977,8 @@ def run(tier, seed):
         if mo[1] == "fatal":
             req = int(mo[2], 16)
             for what, o in (("UnmarshalConst", uo), ("load", lo)):
+                if what == "load" and ulines[n].split(" ")[2] != "0":
+                    continue
                 if crash_is_oom(o):
                     if known_make:
                         ck.known_finding(known_make)
@@ -965,14 +1007,30 @@ def run(tier, seed):
                 ck.violation("UnmarshalConst of a malformed stream: %s" % uo[1], {"kind": "Go!=S", "engine": "marshal", "stream": m.hex(), "budget": ulines[n].split(" ")[2], "impl": uout[n][:900], "model": mout[n][:300]})
         elif uo[1:] != mo[1:]:
             im_diffs.append(("UnmarshalConst result differs from the model on a malformed stream (%s)" % kind, None, None, ulines[n][:400] + " -> go: " + uout[n][:200] + " model: " + mout[n][:200]))
-        if lo[1] != "ok":
+        if ulines[n].split(" ")[2] != "0":
+            pass   # load() runs with an unlimited budget: only the budget-0 verdict of the model speaks about it
+        elif lmod[n].split(" ")[1] == "gopanic":
+            # the model: NewClosure makes a slice of UpvalueCount < 0 cells
+            msg = bytes.fromhex(([x for x in lo if x.startswith("E:")] or ["E:"])[0][2:].replace("-", "")) if lo[1] == "gopanic" else b""
+            if lo[1] == "gopanic" and b"makeslice" in msg and known_upv:
+                ck.known_finding(known_upv)
+                ck.count("malformed:known-negative-upvalue-count-panic")
+            elif lo[1] in ("gopanic", "CRASH", "HANG"):
+                mal_fail += 1
+                s_fail += 1
+                if mal_fail <= 3:
+                    ck.violation('load(s, "m", "b") of a malformed stream: Go panic (%s)' % msg.decode("latin-1")[:100],
+                                 {"kind": "Go!=S", "engine": "lua", "stream": m.hex(), "lua": bytes.fromhex(llines[n].split(" ")[1]).decode("latin-1")[:3000], "impl": lout[n][:900]})
+            else:
+                im_diffs.append(("the model predicts a Go panic in NewClosure (negative upvalue count) but load() returned normally", None, None, m.hex()[:300] + " -> " + lout[n][:200]))
+        elif lo[1] != "ok":
             mal_fail += 1
             s_fail += 1
             if mal_fail <= 3:
                 ck.violation('load(s, "m", "b") of a malformed stream does not end in an ordinary result: %s' % lo[1],
                              {"kind": "Go!=S", "engine": "lua", "stream": m.hex(), "lua": bytes.fromhex(llines[n].split(" ")[1]).decode("latin-1")[:3000], "impl": lout[n][:900]})
-        elif n % 2 == 0:
-            want = predict_load(m, mout[n])
+        else:
+            want = predict_load(m, lmod[n])
             got = ([x for x in lo if x.startswith("T:")] or ["T:?"])[0][2:]
             if want is not None and got != want:
                 im_diffs.append(("load() result differs from what the model predicts (%s)" % kind, None, None, m.hex()[:300] + " -> go: " + got + " want: " + want))
@@ -996,6 +1054,19 @@ def run(tier, seed):
         else:
             s_fail += 1
             ck.violation("witness stream: unexpected outcome " + f[1], {"kind": "Go!=S", "engine": "lua", "lua": wsrc, "impl": o[:900]})
+
+    wit2 = bytes([6, 0, 4, 5]) + bytes(40) + bytes([0xFF, 0xFF, 0, 0, 0, 0]) + bytes(8)
+    w2src = 'local f, e = load(%s, "w", "b"); emit(type(f), e)' % lua_str(wit2)
+    for o in vlib.run_lines_resilient(gvh, ["lua"], ["w2 %s" % w2src.encode().hex()], per_case_timeout=60):
+        f = o.split(" ")
+        if f[1] == "gopanic" and known_upv:
+            ck.known_finding(known_upv)
+        elif f[1] in ("gopanic", "CRASH", "HANG"):
+            s_fail += 1
+            ck.violation("load of a 58-byte binary chunk with upvalue count -1: Go panic makeslice (kills an embedding that does not recover)",
+                         {"kind": "Go!=S", "engine": "lua", "lua": w2src, "impl": o[:900], "theorem": "C13_load_no_panic_refuted"})
+        else:
+            im_diffs.append(("the recorded witness of C13-load-negative-upvalue-count no longer panics; the model (LPanic) is stale", None, None, o[:300]))
 
     # ------------------------------------------------ classification of Go != IM
     if im_diffs and s_fail == 0:
@@ -1046,8 +1117,8 @@ def replay(path, seed):
                     fl = ["malformed dump: %s" % ex]
                 if p["d1"] != p["d2"]:
                     fl.append("dump not stable")
-                _, mo, _ = vlib.run_lines(oracle, [], ["u dumpu %s %s" % (hz(p["idx"]), unit)])
-                print("closure %d: predicates %s; model bytes equal: %s" % (j, fl or "ok", bool(mo) and mo[0].split(" ")[2:3] == [p["d1"]]))
+                _, mo, _ = run_oracle(oracle, ["U unit " + unit, "u dumpu %s" % hz(p["idx"])])
+                print("closure %d: predicates %s; model bytes equal: %s" % (j, fl or "ok", len(mo) > 1 and mo[1].split(" ")[2:3] == [p["d1"]]))
         if r.get("engine") == "lua":
             o = vlib.run_lines_resilient(gvh, ["lua"], ["d " + (r["chunk"] + r["driver_direct"]).encode().hex(), "r " + (r["chunk"] + r["driver_reload"]).encode().hex()])
             print("direct:", o[0][:1500])
